@@ -31,7 +31,7 @@ def names(rng, n, prefix, adversarial=0.0, taken=()):
 
 def circuit(rng, n_in=(1, 5), n_gates=(1, 10), types=GATES, max_arity=4, consts=0.15, p_out=0.3,
             adversarial=0.0, cyclic=False, allow_x=False, name=None, unary_multi=0.12, dead=True,
-            out_inputs=0.08, in_names=None):
+            out_inputs=0.08, in_names=None, selfloops=0.0):
     """random lint-clean (undriven=True) blackbox-free circuit.
     dead=False: every non-output node gets a load eventually (best effort: sinks are marked outputs)."""
     c = cg.Circuit(name=name or rng.choice(["c", "top", "circ"]))
@@ -69,6 +69,12 @@ def circuit(rng, n_in=(1, 5), n_gates=(1, 10), types=GATES, max_arity=4, consts=
             src = rng.choice(gates)
             if src != tgt:
                 c.graph.add_edge(src, tgt)
+    if selfloops and gates and rng.random() < selfloops:
+        # a gate in its own fan-in (`c.connect(g, g)` is legal and lint-clean for multi-input gates)
+        multi = [g for g in gates if c.type(g) in MULTI]
+        if multi:
+            g = rng.choice(multi)
+            c.connect(g, g)
     # outputs
     for n in list(c.graph.nodes):
         t = c.type(n)
